@@ -22,7 +22,8 @@ type arrival struct {
 }
 
 type scenario struct {
-	Kind      string      `json:"kind"` // delayfilter | router
+	Kind      string      `json:"kind"` // delayfilter | router | chain (sender behind a LAN router behind the WAN router, both delaying)
+	Delay2Ns  int64       `json:"delay2Ns"` // chain: the LAN router's minimum delay
 	DelayNs   int64       `json:"delayNs"`
 	JitterNs  int64       `json:"jitterNs"`
 	Producers [][]arrival `json:"producers"`
@@ -32,8 +33,11 @@ var delays = []int64{0, 0, 1, 1000, 200000, 1000000, 20000000, 50000000}
 
 func gen(r *harn.Rng, tier string) interface{} {
 	sc := &scenario{}
-	if r.Bool(0.6) {
+	if r.Bool(0.5) {
 		sc.Kind = "delayfilter"
+	} else if r.Bool(0.3) {
+		sc.Kind = "chain"
+		sc.Delay2Ns = delays[2+r.Intn(len(delays)-2)]
 	} else {
 		sc.Kind = "router"
 		if r.Bool(0.5) {
@@ -42,7 +46,7 @@ func gen(r *harn.Rng, tier string) interface{} {
 	}
 	sc.DelayNs = delays[r.Intn(len(delays))]
 	np := r.Range(1, 3)
-	if sc.Kind == "router" {
+	if sc.Kind == "router" || sc.Kind == "chain" {
 		np = r.Range(1, 2)
 	}
 	for p := 0; p < np; p++ {
@@ -97,7 +101,7 @@ func payload(id uint32, n int) []byte {
 
 func run(env *simrt.Env, sci interface{}) {
 	sc := sci.(*scenario)
-	if sc.Kind == "router" {
+	if sc.Kind == "router" || sc.Kind == "chain" {
 		runRouter(env, sc)
 		return
 	}
@@ -246,6 +250,20 @@ func runRouter(env *simrt.Env, sc *scenario) {
 		env.Infra("ListenUDP: %v", err)
 		return
 	}
+	sendRouter, sendBase := wan, "10.0.0"
+	if sc.Kind == "chain" {
+		lan, err := vnet.NewRouter(&vnet.RouterConfig{CIDR: "192.168.0.0/24", StaticIPs: []string{"10.0.0.200"}, MinDelay: time.Duration(sc.Delay2Ns), LoggerFactory: lf})
+		if err != nil {
+			env.Infra("NewRouter lan: %v", err)
+			return
+		}
+		if err := wan.AddRouter(lan); err != nil {
+			env.Infra("AddRouter: %v", err)
+			return
+		}
+		sendRouter, sendBase = lan, "192.168.0"
+		delay += time.Duration(sc.Delay2Ns) // each router adds at least its own minimum delay
+	}
 	if err := wan.Start(); err != nil {
 		env.Infra("Start: %v", err)
 		return
@@ -279,11 +297,17 @@ func runRouter(env *simrt.Env, sc *scenario) {
 	var hs []*simrt.Handle
 	for p := range sc.Producers {
 		p := p
-		n := mk(fmt.Sprintf("10.0.0.%d", 10+p))
-		if n == nil {
+		sip := fmt.Sprintf("%s.%d", sendBase, 10+p)
+		n, nerr := vnet.NewNet(&vnet.NetConfig{StaticIPs: []string{sip}})
+		if nerr != nil {
+			env.Infra("NewNet: %v", nerr)
 			return
 		}
-		conn, err := n.ListenUDP("udp", &net.UDPAddr{IP: net.ParseIP(fmt.Sprintf("10.0.0.%d", 10+p)), Port: 5000})
+		if err := sendRouter.AddNet(n); err != nil {
+			env.Infra("AddNet: %v", err)
+			return
+		}
+		conn, err := n.ListenUDP("udp", &net.UDPAddr{IP: net.ParseIP(sip), Port: 5000})
 		if err != nil {
 			env.Infra("ListenUDP: %v", err)
 			return
